@@ -253,9 +253,59 @@ func init() {
 		}}
 	}
 	builtinModels = map[string]model{
-		"strings.HasPrefix":                         strPred("str.prefixof", true),
-		"strings.HasSuffix":                         strPred("str.suffixof", true),
-		"strings.Contains":                          strPred("str.contains", false),
+		"strings.HasPrefix": strPred("str.prefixof", true),
+		"strings.HasSuffix": strPred("str.suffixof", true),
+		"strings.Contains":  strPred("str.contains", false),
+		// lo.FindIndexOf(s, pred): (s[i], i, true) for some i with pred(s[i]), or (zero, -1, false) if none
+		"github.com/samber/lo.FindIndexOf": {pure: false, fn: func(fv *FuncVerifier, call *ast.CallExpr, args []Term, st *State) []Term {
+			lit, ok := ast.Unparen(call.Args[1]).(*ast.FuncLit)
+			if !ok || len(lit.Body.List) != 1 {
+				reject("lo.FindIndexOf needs a single-return predicate literal at %s", fv.pos(call.Pos()))
+			}
+			ret, ok := lit.Body.List[0].(*ast.ReturnStmt)
+			if !ok || len(ret.Results) != 1 {
+				reject("lo.FindIndexOf needs a single-return predicate literal at %s", fv.pos(call.Pos()))
+			}
+			src := args[0]
+			var pname *ast.Ident
+			for _, f := range lit.Type.Params.List {
+				if len(f.Names) > 0 {
+					pname = f.Names[0]
+				}
+			}
+			predAt := func(x Term) Term {
+				obj := fv.info().Defs[pname]
+				old, had := fv.bound[obj]
+				fv.bound[obj] = x
+				fv.specMode++
+				fv.quantDepth++
+				t := fv.evalCond(ret.Results[0], st)
+				fv.quantDepth--
+				fv.specMode--
+				if had {
+					fv.bound[obj] = old
+				} else {
+					delete(fv.bound, obj)
+				}
+				return t
+			}
+			idx := fv.u.freshConst("fidx", sortInt)
+			found := fv.u.freshConst("ffound", sortBool)
+			elem := fv.u.freshConst("felem", src.Sort.Elem)
+			st.assume(implies(found, and(mk(sortBool, "(<= 0 %s)", idx.S), mk(sortBool, "(< %s %s)", idx.S, slLen(src).S), eq(elem, slAt(src, idx)), predAt(slAt(src, idx)))))
+			st.assume(implies(not(found), and(eq(idx, intT(-1)), mk(sortBool, "(forall ((i!f Int)) (=> (and (<= 0 i!f) (< i!f %s)) (not %s)))", slLen(src).S, predAt(slAt(src, Term{"i!f", sortInt})).S))))
+			return []Term{elem, idx, found}
+		}},
+		// first index of v in s, or -1
+		"github.com/samber/lo.IndexOf": {pure: false, fn: func(fv *FuncVerifier, call *ast.CallExpr, args []Term, st *State) []Term {
+			sl, v := args[0], args[1]
+			r := fv.u.freshConst("idxof", sortInt)
+			st.assume(mk(sortBool, "(and (<= (- 1) %s) (< %s %s))", r.S, r.S, slLen(sl).S))
+			st.assume(mk(sortBool, "(=> (>= %s 0) (= (select %s %s) %s))", r.S, slArr(sl).S, r.S, v.S))
+			st.assume(mk(sortBool, "(forall ((i!c Int)) (! (=> (and (<= 0 i!c) (< i!c %s) (or (< %s 0) (< i!c %s))) (not (= (select %s i!c) %s))) :pattern ((select %s i!c))))",
+				slLen(sl).S, r.S, r.S, slArr(sl).S, v.S, slArr(sl).S))
+			return []Term{r}
+		}},
 		"slices.Contains":                           contains,
 		"github.com/samber/lo.Contains":             contains,
 		"slices.Clone":                              clone,
@@ -276,9 +326,17 @@ func init() {
 			st.assume(mk(sortBool, "(and (>= %s 0) (= (= %s 0) (and (= %s 0) (= %s 0))) (= (err_root %s) (ite (= %s 0) (err_root %s) (err_root %s))))", e.S, e.S, a.S, b.S, e.S, a.S, b.S, a.S))
 			return []Term{e}
 		}},
-		"errors.Is":                           isErr,
-		"github.com/synnaxlabs/x/errors.Is":   isErr,
-		"github.com/synnaxlabs/x/errors.Skip": isErr,
+		"errors.Is":                         isErr,
+		"github.com/synnaxlabs/x/errors.Is": isErr,
+		// Skip(err, refs...): nil if err matches one of refs, else err
+		"github.com/synnaxlabs/x/errors.Skip": {pure: true, fn: func(fv *FuncVerifier, call *ast.CallExpr, args []Term, st *State) []Term {
+			e := args[0]
+			var any []Term
+			for _, r := range args[1:] {
+				any = append(any, errIs(e, r))
+			}
+			return []Term{ite(or(any...), Term{"0", e.Sort}, e)}
+		}},
 		// lo.Map(s, func(x T, i int) R { return e }): r with len(r) == len(s) and r[i] == e[x:=s[i]]
 		"github.com/samber/lo.Map": {pure: false, fn: func(fv *FuncVerifier, call *ast.CallExpr, args []Term, st *State) []Term {
 			lit, ok := ast.Unparen(call.Args[1]).(*ast.FuncLit)
